@@ -40,7 +40,7 @@ pub fn rule_text(vec: &Value) -> String {
 pub fn run_rule(text: &str, word: &v::Word) -> Result<Result<v::Word, asca::Error>, String> {
     let w = word.clone();
     let t = text.to_string();
-    let rec = v::record(5_000_000, false, false, move || {
+    let rec = crate::util::rec(5_000_000, false, false, move || {
         let rules = v::parse_rules(&[RuleGroup::from_rules(vec![t])])?;
         let steps = v::apply_structural(&rules, w.clone())?;
         Ok(steps.last().map(|s| s.word.clone()).unwrap_or(w))
